@@ -401,6 +401,7 @@ impl C17 {
                     if !query_path && ok == Some(false) && after != before { return Some(Violation::new("failed-update-changed-dataset", format!("request {} through {} reported failure but the dataset changed; text = {:?}", i, name, short))); }
                     if rq.malformed && ok == Some(true) && !(rq.text.starts_with("SELECT")) { return Some(Violation::new("malformed-request-accepted", format!("request {} through {}: a malformed update was reported as successful; text = {:?}", i, name, short))); }
                     if rq.malformed { ctx.hit("fault.known_malformed_update_submitted"); }
+                    if rq.text.contains("TRAIN NEURAL RELATION") { ctx.hit("fault.train_clause_with_nested_request_text"); }
                     if !rq.form_tail.is_empty() { ctx.hit("fault.form_parameter_with_hostile_percent_escapes"); }
                     if ok == Some(false) { ctx.hit("fault.malformed_or_refused_request"); }
                     if !rq.text.is_ascii() { ctx.hit("fault.multibyte_request"); }
@@ -416,7 +417,7 @@ impl C17 {
 impl Prop for C17 {
     type Case = HostileCase;
     fn id(&self) -> &'static str { "C17" }
-    fn expected_counters(&self) -> Vec<&'static str> { vec!["fault.update_submitted_to_query_endpoint", "fault.update_behind_extension_clause_on_query_endpoint", "fault.malformed_or_refused_request", "fault.multibyte_request", "fault.hostile_namespace_in_database_prefix_table", "probe.prefix_registered_by_turtle_loader", "probe.extension_clause_then_select_accepted", "probe.ext_accepted.rule", "probe.ext_accepted.retrieve", "probe.ext_accepted.register", "probe.ext_accepted.ml_predict", "probe.ext_accepted.retrieve_and_rule", "probe.extension_clause_then_update_applied", "probe.min_max_over_stored_nan", "probe.bulk_dataset_over_64_rows", "fault.pool_wider_than_the_row_count", "fault.known_malformed_update_submitted", "fault.form_parameter_with_hostile_percent_escapes"] }
+    fn expected_counters(&self) -> Vec<&'static str> { vec!["fault.update_submitted_to_query_endpoint", "fault.update_behind_extension_clause_on_query_endpoint", "fault.malformed_or_refused_request", "fault.multibyte_request", "fault.hostile_namespace_in_database_prefix_table", "probe.prefix_registered_by_turtle_loader", "probe.extension_clause_then_select_accepted", "probe.ext_accepted.rule", "probe.ext_accepted.retrieve", "probe.ext_accepted.register", "probe.ext_accepted.ml_predict", "probe.ext_accepted.retrieve_and_rule", "probe.extension_clause_then_update_applied", "probe.min_max_over_stored_nan", "probe.bulk_dataset_over_64_rows", "fault.pool_wider_than_the_row_count", "fault.known_malformed_update_submitted", "fault.form_parameter_with_hostile_percent_escapes", "fault.train_clause_with_nested_request_text"] }
     fn budget(&self, tier: Tier) -> Budget { match tier { Tier::Quick => Budget { runs: 20_000, wall_s: 60, recheck: 30 }, Tier::Thorough => Budget { runs: 1_500_000, wall_s: 1000, recheck: 100 } } }
     fn hash_seed(&self, c: &HostileCase) -> u64 { c.hash_seed }
     fn gen(&self, seed: u64, _i: u64, _t: Tier) -> HostileCase {
@@ -439,6 +440,14 @@ impl Prop for C17 {
             let text = if mutated { mutate(&mut r, &base) } else { base };
             let entry = if !mutated && is_sel && !ext && r.chance(1, 4) { 1 } else { *r.pick(&[0u8, 0, 0, 2, 3, 4, 5, 6, 7, 8, 9]) };
             let form_tail = if matches!(entry, 5 | 7 | 8) && r.chance(1, 6) { r.pick(&["%FF", "%C3", "%E9", "%", "%G1", "+%80+", "%F0%9F", "%00", "&x=%FF", "%C3%28"]).to_string() } else { String::new() };
+            // MODEL / NEURAL RELATION declarations plus a TRAIN clause whose QUERY block carries update text (or a SELECT without
+            // rows): the training loader must refuse it before anything runs, on the query entry points as on the others
+            if w_ext > 0 && r.chance(1, 12) {
+                let nested = if r.chance(2, 3) { r.pick(&UPDATES).to_string() } else { "SELECT ?s ?x ?label WHERE { ?s <http://e/never> ?x . ?s <http://e/never2> ?label }".to_string() };
+                let nested = nested.replace("PREFIX e: <http://e/> ", "").replace("e:", "ex:");
+                let t = format!("PREFIX ex: <http://e/>\nMODEL \"flag_model\" {{\n    ARCH MLP {{ HIDDEN [4] }}\n    OUTPUT BINARY {{ \"yes\" }}\n}}\nNEURAL RELATION ex:flag USING MODEL \"flag_model\" {{\n    INPUT {{ ?s ex:x ?x . }}\n    FEATURES {{ ?x }}\n}}\nTRAIN NEURAL RELATION ex:flag {{\n    QUERY {{ {} }}\n    LABEL ?label\n    TARGET {{ ?s ex:flag ?label }}\n    LOSS bce\n    OPTIMIZER adam\n    LEARNING_RATE 0.1\n    EPOCHS 1\n    BATCH_SIZE 1\n}}\n", nested);
+                reqs.push(Req { entry: *r.pick(&[0u8, 0, 5, 6, 7, 2]), text: t, valid_select: false, update_shaped: false, ext: true, form_tail: String::new(), malformed: false });
+            }
             if r.chance(1, 10) { let t = r.pick(&REJECTED).to_string(); reqs.push(Req { entry: *r.pick(&[2u8, 3, 4, 8, 9]), text: t, valid_select: false, update_shaped: false, ext: false, form_tail: String::new(), malformed: true }); }
             reqs.push(Req { entry, text, valid_select: !mutated && is_sel, update_shaped: !mutated && !is_sel, ext, form_tail, malformed: false });
         }
@@ -464,6 +473,6 @@ impl Prop for C17 {
         out
     }
     fn rule(&self) -> String { "A case is one session: a generated update history builds a database state (in a third of the cases its prefix table holds namespaces registered through the Turtle loader or the prefix API, half of those hostile: escape-like sequences next to multi-byte characters, surrogates, empty), then a hostile client sends 8-38 requests (valid SELECTs incl. MIN/MAX/SUM/AVG over NaN/inf lexical forms, every update form and the legacy aliases, any of them optionally behind a RULE / RETRIEVE / REGISTER / ML.PREDICT extension clause, and mutations of those: deletion/duplication/truncation, 2-4-byte characters before/inside/after tokens, unbalanced braces and quotes, NULs, very long tokens, extreme numbers in place of number tokens and LIMITs up to usize::MAX) through execute_sparql_query, execute_query_rayon_parallel2_volcano (SELECT only), execute_sparql_update, SparqlDatabase::execute_update, handle_update and the HTTP GET query adapter. After every request: query paths leave quad ids and catalog unchanged, update syntax is refused there, a failed update leaves the dataset unchanged, no entry point unwinds. Distinct = hash of the request list (every case is counted non-trivial when it has >= 8 requests). Sessions run under simulated pools of 1-300 workers, a fifth with 60-150 extra triples; the database prefix table may hold hostile namespaces; the known-malformed corpus goes through every update entry point (must fail); form / URL parameters get hostile percent escapes; extreme numbers replace number tokens.".into() }
-    fn assumptions(&self) -> Vec<String> { vec!["RULE / RETRIEVE / REGISTER / ML.PREDICT clauses are in the corpus in front of SELECTs and updates (none of the ten entry points executes them); MODEL / TRAIN declarations are not (they run training code)".into(), "this is seeded mutation of requests inside a stateful session; the simulator's contribution is the state dimension and the per-request whole-state invariant".into()] }
+    fn assumptions(&self) -> Vec<String> { vec!["RULE / RETRIEVE / REGISTER / ML.PREDICT clauses are in the corpus in front of SELECTs and updates (none of the ten entry points executes them); MODEL / NEURAL RELATION / TRAIN declarations are sent only with a QUERY block that holds update text or a SELECT without rows, so no training ever runs".into(), "this is seeded mutation of requests inside a stateful session; the simulator's contribution is the state dimension and the per-request whole-state invariant".into()] }
     fn real_vs_stub(&self) -> serde_json::Value { serde_json::json!({"real": ["execute_sparql_query", "execute_query_rayon_parallel2_volcano", "execute_sparql_update", "SparqlDatabase::{execute_update, handle_update, handle_http_request}", "parser", "error_handler"], "simulated": ["the client", "hash keys"], "not_run": ["TCP sockets (run_server)"]}) }
 }
